@@ -74,7 +74,8 @@ func smallValue(t *rapid.T, attr jsonapi.Attr, label string) any {
 		// the first two are the same instant in different zones: a tie
 		b = []time.Time{t0, t0.In(time.FixedZone("", 3600)), t0.Add(time.Hour).In(time.FixedZone("", 7200))}[i]
 	case jsonapi.AttrTypeBytes:
-		b = [][]byte{{}, {1, 2}, {2, 1}}[i]
+		// (lengths differ too: the order is lexicographic, not by length)
+		b = rapid.SampledFrom([][]byte{{}, {1, 2}, {2, 1}, {0, 9, 9}, {1}, {1, 2, 0}}).Draw(t, label+"-bytes")
 	}
 
 	if attr.Nullable {
@@ -229,6 +230,13 @@ func TestC09Range(t *testing.T) {
 			n += 5
 		}
 
+		// Now and then a collection (and an ID list) of a size at which an
+		// implementation may switch strategy.
+		many := rapid.IntRange(0, 11).Draw(t, "many") == 0
+		if many {
+			n = rapid.IntRange(20, 40).Draw(t, "n-many")
+		}
+
 		items := []rangeItem{}
 		seen := map[string]bool{}
 
@@ -261,7 +269,7 @@ func TestC09Range(t *testing.T) {
 		// ID list: empty, or a duplicate-free subset plus absent IDs.
 		ids := []string{}
 
-		if rapid.IntRange(0, 2).Draw(t, "useIDs") == 0 {
+		if rapid.IntRange(0, 2).Draw(t, "useIDs") == 0 || (many && rapid.Bool().Draw(t, "useIDs-many")) {
 			for _, it := range items {
 				if rapid.IntRange(0, 3).Draw(t, "pick") > 0 {
 					ids = append(ids, it.id)
